@@ -32,6 +32,12 @@ def boot():
   import scales.timer_queue  # noqa  (spawns the module-level timer greenlets on our hub)
   _install_random_shims()
   _snapshot_shared_containers()
+  # The cyclic garbage collector must not run in the middle of an execution: collecting a suspended greenlet or an object
+  # with a finalizer left over from an EARLIER execution unwinds it (finally blocks, lock releases, kill callbacks) and
+  # can put callbacks on the loop of the current one, at a point that depends on allocation counts.  Collection happens
+  # inside reset() instead, where whatever it schedules is discarded.
+  import gc
+  gc.disable()
   _booted = True
   reset()
   return lp
@@ -249,6 +255,7 @@ class _DeadWorker(object):
     pass
 
 
+_RESETS = 0
 _EXTRA_TQS = []
 _PATCHES = []    # (object, attribute, original value): undone at the next reset
 
@@ -303,6 +310,12 @@ def reset():
           k(block=False)
         except Exception:
           pass
+    vloop.run_ready(budget=20000)
+  global _RESETS
+  _RESETS += 1
+  if _RESETS % 20 == 0:
+    import gc
+    gc.collect(2 if _RESETS % 2000 == 0 else 1)
     vloop.run_ready(budget=20000)
   lp._ready.clear()
   lp._timers = []
